@@ -153,6 +153,185 @@ source words makes the same choices. (Stated for emphasis; it is the functionali
 theorem run_deterministic {α : Type} (p : Rand α) (t₁ t₂ : List Nat) (h : t₁ = t₂) :
     p.run t₁ = p.run t₂ := by rw [h]
 
+/-! ### The byte-level source against the word-level tape, for whole generators -/
+
+/-- The four bytes of a raw word, big endian. -/
+def bytesOfWord (v : Nat) : List Nat := [v / 16777216 % 256, v / 65536 % 256, v / 256 % 256, v % 256]
+
+/-- The byte supply that decodes to a tape of words. -/
+def bytesOfWords (ws : List Nat) : List Nat := ws.flatMap bytesOfWord
+
+theorem wordOfBytes_bytesOfWord (v : Nat) (hv : v < two32) :
+    wordOfBytes (v / 16777216 % 256) (v / 65536 % 256) (v / 256 % 256) (v % 256) = v := by
+  unfold wordOfBytes; unfold two32 at hv; omega
+
+/-- Reading never invents plan entries: what is left of the plan was in the plan. -/
+theorem readFull_plan_subset : ∀ (fuel need : Nat) (got : List Nat) (s : Source),
+    ∀ r ∈ (readFull fuel need got s).2.plan, r ∈ s.plan
+  | 0, _, _, s => fun r hr => hr
+  | fuel + 1, need, got, s => by
+    intro r hr
+    unfold readFull at hr
+    split at hr
+    · exact hr
+    · simp only at hr
+      split at hr
+      · exact List.mem_of_mem_tail hr
+      · split at hr
+        · exact List.mem_of_mem_tail hr
+        · split at hr
+          · exact List.mem_of_mem_tail hr
+          · have := readFull_plan_subset fuel _ _ _ r hr
+            exact List.mem_of_mem_tail this
+
+theorem readWord_plan_subset (s : Source) : ∀ r ∈ (readWord s).2.plan, r ∈ s.plan := by
+  intro r hr
+  unfold readWord at hr
+  have h := readFull_plan_subset (s.plan.length + 5) 4 [] s
+  split at hr
+  · rename_i heq; rw [heq] at h; exact h r hr
+  · rename_i heq; rw [heq] at h; exact h r hr
+
+/-- With no bytes left, an error-free reader can only report end of input. -/
+theorem readFull_no_bytes : ∀ (fuel need : Nat) (got : List Nat) (plan : List Resp),
+    0 < need → (readFull fuel need got { plan := plan, bytes := [] }).1 = none
+  | 0, _, _, _, _ => rfl
+  | fuel + 1, need, got, plan, hn => by
+    unfold readFull
+    rw [if_neg (by omega)]
+    simp only [List.take_nil, List.length_nil, List.append_nil, List.drop_nil, Nat.sub_zero]
+    rw [if_neg (by omega)]
+    split
+    · rfl
+    · split
+      · rfl
+      · -- the response asked for 0 bytes: the loop goes on with the rest of the plan
+        exact readFull_no_bytes fuel need got _ hn
+
+theorem readWord_no_bytes (plan : List Resp) : (readWord { plan := plan, bytes := [] }).1 = none := by
+  unfold readWord
+  have := readFull_no_bytes (plan.length + 5) 4 [] plan (by omega)
+  simp only at this ⊢
+  cases h : readFull (plan.length + 5) 4 [] { plan := plan, bytes := [] } with
+  | mk o s' =>
+    rw [h] at this
+    simp only at this
+    subst this
+    rfl
+
+/-- One draw on the byte source is one draw on the decoded tape. -/
+theorem drawSource_words (n : Nat) : ∀ (ws : List Nat) (fuel : Nat) (plan : List Resp),
+    (∀ w ∈ ws, w < two32) → NoErr plan → ws.length < fuel →
+    match drawWords n ws with
+    | .ok k rest => ∃ plan', (∀ r ∈ plan', r ∈ plan) ∧
+        drawSource n fuel { plan := plan, bytes := bytesOfWords ws } =
+          (some k, { plan := plan', bytes := bytesOfWords rest })
+    | _ => (drawSource n fuel { plan := plan, bytes := bytesOfWords ws }).1 = none
+  | [], fuel, plan, _, _, hf => by
+    simp only [drawWords]
+    obtain ⟨f, rfl⟩ : ∃ f, fuel = f + 1 := ⟨fuel - 1, by simp at hf; omega⟩
+    exact drawSource_fault n f _ (readWord_no_bytes plan)
+  | v :: ws, fuel, plan, hlt, hne, hf => by
+    obtain ⟨f, rfl⟩ : ∃ f, fuel = f + 1 := ⟨fuel - 1, by simp at hf; omega⟩
+    have hv : v < two32 := hlt v (by simp)
+    have hbytes : bytesOfWords (v :: ws) =
+        (v / 16777216 % 256) :: (v / 65536 % 256) :: (v / 256 % 256) :: (v % 256) :: bytesOfWords ws := by
+      simp [bytesOfWords, bytesOfWord]
+    obtain ⟨plan1, hread⟩ := readWord_chunking { plan := plan, bytes := bytesOfWords (v :: ws) } _ _ _ _
+      (bytesOfWords ws) hbytes hne
+    rw [wordOfBytes_bytesOfWord v hv] at hread
+    have hsub1 : ∀ r ∈ plan1, r ∈ plan := by
+      have := readWord_plan_subset { plan := plan, bytes := bytesOfWords (v :: ws) }
+      rw [hread] at this
+      exact this
+    simp only [drawWords]
+    cases hs : step n v with
+    | some k =>
+      simp only
+      refine ⟨plan1, hsub1, ?_⟩
+      simp only [drawSource, hread, hs]
+    | none =>
+      simp only
+      have hne1 : NoErr plan1 := fun r hr => hne r (hsub1 r hr)
+      have ih := drawSource_words n ws f plan1 (fun w hw => hlt w (by simp [hw])) hne1 (by simp at hf ⊢; omega)
+      have hstep : drawSource n (f + 1) { plan := plan, bytes := bytesOfWords (v :: ws) } =
+          drawSource n f { plan := plan1, bytes := bytesOfWords ws } := by
+        simp only [drawSource, hread, hs]
+      rw [hstep]
+      cases hd : drawWords n ws with
+      | ok k rest =>
+        rw [hd] at ih
+        obtain ⟨plan', hsub', heq⟩ := ih
+        exact ⟨plan', fun r hr => hsub1 r (hsub' r hr), heq⟩
+      | fault => rw [hd] at ih; exact ih
+      | zero => rw [hd] at ih; exact ih
+
+/-- Run a generator against the scripted byte source (`fuel` bounds the words read per draw). -/
+def runS {α : Type} : Rand α → Nat → Source → Option α
+  | .pure a, _, _ => some a
+  | .draw n k, fuel, s =>
+    if n = 0 then none else
+    match drawSource n fuel s with
+    | (some i, s') => runS (k i) fuel s'
+    | (none, _) => none
+
+/-- **Same recipe, same bytes, same choices — however the source chunks its reads.** Running any
+generator on a reader that never reports an error, whatever its plan of short reads, gives
+exactly the result of running it on the words its bytes decode to; and where the word-level run
+ends in a panic (source exhausted, or `randomUint32n(0)`), the byte-level run has no result. -/
+theorem runS_eq_run {α : Type} : ∀ (p : Rand α) (ws : List Nat) (fuel : Nat) (plan : List Resp),
+    (∀ w ∈ ws, w < two32) → NoErr plan → ws.length < fuel →
+    runS p fuel { plan := plan, bytes := bytesOfWords ws } =
+      (match p.run ws with | .done a _ => some a | _ => none)
+  | .pure a, ws, fuel, plan, _, _, _ => rfl
+  | .draw n k, ws, fuel, plan, hlt, hne, hf => by
+    simp only [runS, Rand.run, drawTape]
+    by_cases hn : n = 0
+    · simp [hn]
+    · rw [if_neg hn, if_neg hn]
+      have hd := drawSource_words n ws fuel plan hlt hne hf
+      cases hw : drawWords n ws with
+      | ok i rest =>
+        rw [hw] at hd
+        obtain ⟨plan', hsub, heq⟩ := hd
+        rw [heq]
+        simp only
+        have hrest_lt : ∀ w ∈ rest, w < two32 := by
+          -- the rest of the tape is a suffix of the tape
+          have : ∀ (t : List Nat) (i : Nat) (r : List Nat), drawWords n t = .ok i r → ∀ w ∈ r, w ∈ t := by
+            intro t
+            induction t with
+            | nil => intro i r h; cases h
+            | cons v t ih =>
+              intro i r h w hwr
+              simp only [drawWords] at h
+              cases hs : step n v with
+              | some k' => rw [hs] at h; injection h with _ h2; subst h2; exact List.mem_cons_of_mem _ hwr
+              | none => rw [hs] at h; exact List.mem_cons_of_mem _ (ih i r h w hwr)
+          exact fun w hwr => hlt w (this ws i rest hw w hwr)
+        have hrest_len : rest.length < fuel := by
+          have : ∀ (t : List Nat) (i : Nat) (r : List Nat), drawWords n t = .ok i r → r.length ≤ t.length := by
+            intro t
+            induction t with
+            | nil => intro i r h; cases h
+            | cons v t ih =>
+              intro i r h
+              simp only [drawWords] at h
+              cases hs : step n v with
+              | some k' => rw [hs] at h; injection h with _ h2; subst h2; simp
+              | none => rw [hs] at h; have := ih i r h; simp; omega
+          have := this ws i rest hw; omega
+        exact runS_eq_run (k i) rest fuel plan' hrest_lt (fun r hr => hne r (hsub r hr)) hrest_len
+      | fault =>
+        rw [hw] at hd
+        cases hds : drawSource n fuel { plan := plan, bytes := bytesOfWords ws } with
+        | mk o s' => rw [hds] at hd; simp only at hd; subst hd; rfl
+      | zero =>
+        rw [hw] at hd
+        cases hds : drawSource n fuel { plan := plan, bytes := bytesOfWords ws } with
+        | mk o s' => rw [hds] at hd; simp only at hd; subst hd; rfl
+
+
 /-! ### Regenerated facts about the source text -/
 
 /-- Packages from which variability other than the OS CSPRNG could enter. -/
